@@ -85,6 +85,10 @@ pub struct CheckCfg<'a> {
     /// all tape values and all partial sums (and sums of squares) are exactly representable:
     /// demand bit equality instead of tolerances
     pub exact_data: bool,
+    /// additionally ask a freshly spawned OS thread the same questions about a copy of the
+    /// state: the answers must be bit-identical (an answer may depend on the state only, not on
+    /// what this thread was asked before - hidden thread-local state would show here)
+    pub pristine: bool,
 }
 
 fn untransform(t: Transform, v: f64) -> f64 {
@@ -143,6 +147,20 @@ pub fn check_slot<M: Machine>(w: &World<M>, slot: u16, cfg: CheckCfg, stats: &mu
     if o1 != o2 {
         let d = first_diff(&o1, &o2);
         return Some(Violation::new("C09", "query-not-idempotent", slot, d));
+    }
+    if cfg.pristine {
+        let copy = s.st.clone();
+        let confs: Vec<u8> = cfg.confs.to_vec();
+        let o3 = std::thread::scope(|sc| sc.spawn(move || M::observe(&copy, ObsPlan { confs: &confs, unguarded: false })).join().expect("pristine observer thread panicked"));
+        stats.inc("pristine_thread_comparisons");
+        if o1 != o3 {
+            return Some(Violation::new(
+                "C09",
+                "query-answer-depends-on-what-the-thread-was-asked-before",
+                slot,
+                format!("a copy of the state queried on a fresh thread answers differently: {}", first_diff(&o1, &o3)),
+            ));
+        }
     }
     // exact counters
     let expect_counts: Vec<u64> = match (M::FAMILY, M::name().as_str()) {
@@ -288,9 +306,10 @@ fn c08<M: Machine>(_w: &World<M>, slot: u16, s: &Slot<M>, o: &Obs, cfg: CheckCfg
                     let r = (rec - sm.q_f).abs() / (u * sm.q_f);
                     let floor = 16.0 * eta::<M>() * n / (u * sm.q_f);
                     stats.worst("c08_sumsq_over_uQ", r);
-                    // the reconstruction amplifies the error of `sum` by 2|mean| (<= 2(K+2)u*Q by
-                    // Cauchy-Schwarz) on top of the K*u*Q of the register itself
-                    let lim = 3.0 * bound + 12.0 + floor;
+                    // on top of the K*u*Q of the register itself the reconstruction costs the
+                    // roundings of mean*sum (library and ours), of the subtraction, the division
+                    // and of mean*n standing in for sum: <= 10u*Q by Cauchy-Schwarz
+                    let lim = bound + 10.0 + floor;
                     if r.is_nan() || r > lim {
                         return Some(Violation::new(
                             "C08",
